@@ -462,10 +462,30 @@ def gen_resolve_hostile(ctx, n):
     return out
 
 
-def rand_sa(ctx):
-    """(fam, type, name) of a socket address: mostly well-formed, sometimes arbitrary."""
-    r = ctx.rng
+def rand_unix_name(r):
+    """An AF_UNIX name of any shape: too short to reach sun_path, without terminator, terminator in
+    the middle, full sockaddr_un without terminator, longer than sockaddr_un."""
     k = r.randrange(6)
+    fam = struct.pack("=H", AF_UNIX)
+    if k == 0:
+        return fam[:r.randrange(0, 3)]                                     # 0, 1, 2 bytes
+    if k == 1:
+        return fam + bytes(r.randrange(1, 256) for _ in range(r.choice([1, 2, 4, 20, 107, 108, r.randrange(1, 120)])))
+    if k == 2:
+        body = bytes(r.randrange(1, 256) for _ in range(r.randrange(0, 20)))
+        return fam + body + b"\0" + bytes(r.randrange(256) for _ in range(r.randrange(0, 5)))
+    if k == 3:
+        return fam + bytes(r.choice([47, 97, 255]) for _ in range(SUN_PATH))  # full size, no NUL
+    if k == 4:
+        return fam + bytes(r.randrange(256) for _ in range(r.choice([109, 110, 128, 300])))
+    return bytes(r.randrange(256) for _ in range(r.choice([0, 1, 2, 3, 15, 16, 109, 110, 111, r.randrange(0, 130)])))
+
+
+def rand_sa(ctx):
+    """(fam, type, name) of a socket address: mostly well-formed, sometimes arbitrary.  AF_UNIX names
+    of every shape are included (since the repair F14 the printer is bounded by namelen)."""
+    r = ctx.rng
+    k = r.randrange(7)
     if k == 0:
         return AF_INET, SOCK_STREAM, sockaddr_in(r.choice([0, rand_port(r)]), rand_a4(r))
     if k == 1:
@@ -473,17 +493,25 @@ def rand_sa(ctx):
     if k == 2:
         return AF_UNIX, SOCK_STREAM, sockaddr_un(rand_path(r, r.randrange(1, 108)))
     if k == 3:
-        # (never AF_UNIX with arbitrary bytes: prettyprint_unix strdup()s sun_path up to a terminator
-        # without consulting namelen, so an unterminated AF_UNIX name is outside its contract)
-        return r.choice([0, 2, 10, 3, 0xffffffff, 0x80000000]), r.choice([0, 1, 2, 5, 0xffffffff]), \
+        return r.choice([0, 1, 2, 10, 3, 0xffffffff, 0x80000000]), r.choice([0, 1, 2, 5, 0xffffffff]), \
             bytes(r.randrange(256) for _ in range(r.choice([0, 1, 2, 15, 16, 17, 27, 28, 29, 110, r.randrange(0, 130)])))
     if k == 4:
-        # right family, wrong length (never AF_UNIX: prettyprint_unix trusts the terminator)
-        fam = r.choice([AF_INET, AF_INET6])
-        return fam, SOCK_STREAM, bytes(r.randrange(256) for _ in range(r.choice([0, 2, 15, 16, 17, 27, 28, 29])))
-    # AF_UNIX names that do contain a terminator inside the object
-    body = bytes(r.randrange(1, 256) for _ in range(r.randrange(0, 20)))
-    return AF_UNIX, r.choice([1, 2]), struct.pack("=H", AF_UNIX) + body + b"\0" + bytes(r.randrange(256) for _ in range(r.randrange(0, 5)))
+        # right family, wrong length
+        fam = r.choice([AF_INET, AF_INET6, AF_UNIX])
+        return fam, SOCK_STREAM, bytes(r.randrange(256) for _ in range(r.choice([0, 1, 2, 3, 15, 16, 17, 27, 28, 29, 109, 110, 111])))
+    ctx.count("sock.unix_name_any_shape")
+    return AF_UNIX, r.choice([1, 2]), rand_unix_name(r)
+
+
+# Regression witnesses of finding F14 (repaired): serialised AF_UNIX addresses whose name has no NUL
+# inside the block or stops at the sun_path offset.  The decoder accepts them; the printer used to
+# strdup() sun_path without consulting namelen.  (bytes, what prettyprint(deserialize(.)) gives)
+UNTERMINATED_UNIX = [
+    (struct.pack("=iiI", AF_UNIX, SOCK_STREAM, 6) + struct.pack("=H", AF_UNIX) + b"/bcd", "str " + b"/bcd".hex()),
+    (struct.pack("=iiI", AF_UNIX, SOCK_STREAM, 2) + struct.pack("=H", AF_UNIX), "str -"),
+    (struct.pack("=iiI", AF_UNIX, SOCK_STREAM, 1) + b"\1", "null"),
+    (struct.pack("=iiI", AF_UNIX, SOCK_STREAM, 110) + struct.pack("=H", AF_UNIX) + b"/" + b"p" * 107,
+     "str " + (b"/" + b"p" * 107).hex())]
 
 
 def sock_cases(ctx, n):
@@ -493,7 +521,7 @@ def sock_cases(ctx, n):
     def add(c, want=None):
         cases.append(c)
         py.append(want)
-    for c in corpus({"resolve", "pp", "ser", "deser", "cmp", "dup", "ensure", "rtpp", "rtser"}):
+    for c in corpus({"resolve", "pp", "ser", "deser", "deserpp", "cmp", "dup", "ensure", "rtpp", "rtser"}):
         add(c)
     for s, want in gen_resolve_valid(ctx, n):
         add("resolve " + hx(s), want)
@@ -517,9 +545,13 @@ def sock_cases(ctx, n):
             want = "rt %s same" % hx(path)
         add("rtpp " + sa_line(fam, SOCK_STREAM, nm), want)
         ctx.count("sock.roundtrip.print_resolve")
+    for b, want in UNTERMINATED_UNIX:
+        add("deserpp " + hx(b), want)
     for _ in range(n):
         fam, typ, nm = rand_sa(ctx)
         ln = sa_line(fam, typ, nm)
+        add("deserpp " + hx(struct.pack("=III", fam, typ, len(nm)) + nm))
+        add("rtpp " + ln)
         add("rtser " + ln, "rt same")
         add("dup " + ln, "sa " + ln)
         add("ser " + ln, "ok " + hx(struct.pack("=iiI", fam if fam < 2 ** 31 else fam - 2 ** 32,
@@ -556,7 +588,9 @@ def check_sock(ctx):
             "sock_resolve on IPv4/IPv6 literals in all spellings (::, ::ffff:a.b.c.d, upper case, leading zeros), ports "
             "1..65535 and their accepted spellings, Unix paths up to 107 bytes, against the address they denote "
             "(Python struct/socket) and the model; resolve(prettyprint(sa)) == sa, deserialize(serialize(sa)) == sa, "
-            "dup, cmp evaluated on the implementation itself; malformed forms against the model")
+            "dup, cmp evaluated on the implementation itself; malformed forms against the model; prettyprint, "
+            "deserialize-then-prettyprint and print-then-resolve on addresses of every family and name shape "
+            "(AF_UNIX names unterminated, short, over-long; F14 witnesses) against the model")
 
 
 def gen_deser(ctx, n):
@@ -620,46 +654,15 @@ def gen_resolve_long(ctx):
     return out
 
 
-# sock_addr_deserialize accepts any family with any name; sock_addr_prettyprint on AF_UNIX does
-# strdup(name->sun_path) without consulting namelen.  These serialised addresses (family AF_UNIX,
-# name without a NUL inside the block, or shorter than the sun_path offset) are the one place where
-# the decoder's output, handed to the printer, is read past its block.  Probed one process per
-# input; reported under one fixed signature so that it can be listed as a known finding.
-UNTERMINATED_UNIX = [struct.pack("=iiI", AF_UNIX, SOCK_STREAM, 6) + struct.pack("=H", AF_UNIX) + b"/bcd",
-                     struct.pack("=iiI", AF_UNIX, SOCK_STREAM, 2) + struct.pack("=H", AF_UNIX),
-                     struct.pack("=iiI", AF_UNIX, SOCK_STREAM, 110) + struct.pack("=H", AF_UNIX) + b"/" + b"p" * 107]
-
-
-def probe_unterminated_unix(ctx, sub):
-    exe, mexe = build(ctx, sub)
-    if not exe:
-        return
-    cases = ["deserpp " + hx(b) for b in UNTERMINATED_UNIX]
-    model, _ = vlib.run_sharded(mexe, cases)
-    for c, m in zip(cases, model):
-        out, st = vlib.run_sharded(exe, [c], shards=1, env=ASAN_ENV)
-        rc, err = st[0]
-        ctx.count("sock.probe.unterminated_unix")
-        rep = re.search(r"ERROR: AddressSanitizer: ([a-z-]+)[^\n]*\n(READ|WRITE) of size (\d+)", err)
-        if rep or rc != 0 or out[0].startswith("<no-output"):
-            ctx.fail(sub, "property", c,
-                     "sock_addr_prettyprint(sock_addr_deserialize(buf)) reads past the name block: AF_UNIX name without "
-                     "a NUL inside its namelen bytes, prettyprint_unix strdup()s sun_path ignoring namelen (%s; model=%s)"
-                     % ("ASan %s, %s of size %s" % rep.groups() if rep else "rc=%d" % rc, m),
-                     property_fails=True, signature="sock.prettyprint-unix-unterminated")
-        else:
-            ctx.count("sock.probe.unterminated_unix.no_report")
-    ctx.record(sub + "-probe", cases, set(cases),
-               "probe: serialised AF_UNIX addresses whose name has no NUL inside the block, decoded and handed to "
-               "sock_addr_prettyprint, one process each under ASan (the model faults on them)")
-
-
 def check_sock_safety(ctx):
     n = ctx.n(1500, 40000)
     cases, py = [], []
-    for c in corpus({"resolve", "deser", "ensure"}):
+    for c in corpus({"resolve", "deser", "deserpp", "pp", "ensure"}):
         cases.append(c)
         py.append(None)
+    for b, want in UNTERMINATED_UNIX:                 # regression F14
+        cases.append("deserpp " + hx(b))
+        py.append(want)
     for s in gen_resolve_hostile(ctx, 3 * n):
         cases.append("resolve " + hx(s))
         py.append(None)
@@ -681,8 +684,9 @@ def check_sock_safety(ctx):
         cases.append("deser " + hx(b))
         py.append(None)
     # a decoded address is handed on to sock_addr_prettyprint: every family with every name length
-    # around sizeof(sockaddr_in) = 16 and sizeof(sockaddr_in6) = 28 and well beyond (the printer copies
-    # the name into a fixed-size object on its stack)
+    # around sizeof(sockaddr_in) = 16, sizeof(sockaddr_in6) = 28, sizeof(sockaddr_un) = 110 and well
+    # beyond (the printer copies the name into a fixed-size object on its stack; AF_UNIX names with
+    # and without terminator, shorter than the sun_path offset, longer than sockaddr_un)
     r = ctx.rng
     for _ in range(n // 2):
         fam, typ, nm = rand_sa(ctx)
@@ -690,8 +694,8 @@ def check_sock_safety(ctx):
         py.append(None)
         cases.append("deserpp " + hx(struct.pack("=III", fam & 0xffffffff, typ & 0xffffffff, len(nm)) + nm))
         py.append(None)
-    for fam in (AF_INET, AF_INET6):
-        for ln in [0, 1, 2, 8, 15, 16, 17, 18, 24, 27, 28, 29, 30, 32, 48, 64, 110, 128, 300]:
+    for fam in (AF_INET, AF_INET6, AF_UNIX):
+        for ln in [0, 1, 2, 3, 8, 15, 16, 17, 18, 24, 27, 28, 29, 30, 32, 48, 64, 109, 110, 111, 128, 300]:
             cases.append("pp %d %d %s" % (fam, SOCK_STREAM, hx(bytes(r.randrange(256) for _ in range(ln)))))
             py.append(None)
             ctx.count("sock.pp.namelen_sweep")
@@ -704,12 +708,12 @@ def check_sock_safety(ctx):
             "sock_resolve / sock_addr_ensure_port on bracketed and Unix-path strings with stray brackets, colons, bad "
             "ports, paths of 107..1000 bytes, and rejected addresses of 4000..4200, 8192 and 70000 bytes for every "
             "rejection message that quotes its input (exact strlen+1 allocations); sock_addr_deserialize on buffers "
-            "with every inconsistent namelen and every truncation (exact-size allocations), decoded addresses handed "
-            "to sock_addr_prettyprint; under ASan+UBSan with the library's own util/warnp.c reporting to stderr, "
+            "with every inconsistent namelen and every truncation (exact-size allocations), decoded addresses of every "
+            "family and name shape (AF_UNIX names unterminated, short, over-long; F14 witnesses) handed to "
+            "sock_addr_prettyprint; under ASan+UBSan with the library's own util/warnp.c reporting to stderr, "
             "results against the model (rejected addresses of 4 kB and more: against the model at message lengths 4095..4097, "
             "otherwise against the known result 'fail')",
             real_warnp=True, syslog_verbs={"resolve"}, no_model=no_model)
-    probe_unterminated_unix(ctx, "sock-safety")
 
 
 # --------------------------------------------------------------------------------------------
